@@ -333,6 +333,102 @@ def _crash_unit(item: tuple) -> Partial:
     return p
 
 
+# ---------------------------------------------------------------------------
+# a superseded runner finishes late: what the second runner published stays what readers get
+# ---------------------------------------------------------------------------
+def _late_unit(item: tuple) -> Partial:
+    """Runner r0 is RUNNING the invocation and slow; running-recovery takes it away, runner r1 claims it, runs it to
+    its outcome; only then r0's body ends (with its own outcome) and r0 tries to publish. All four combinations of
+    (r1 outcome, r0 outcome) in {returns, raises}; the status is r1's; what a reader gets must be the outcome of a body execution of that kind (see the oracle), before and
+    after r0's late write."""
+    backend, second, late = item
+    from pynenc import context, core_tasks
+
+    p = Partial()
+    env.reset_world()
+    tasks.HOOKS.clear()
+    conf = dict(cached_status_time=0.0, runner_considered_dead_after_minutes=1.0)
+    db = env.reuse_db("c05l") if backend == env.SQLITE else None
+    mk = lambda: env.make_app(backend, app_id="c05l", db=db, **conf)  # noqa: E731
+    a0 = mk()
+    a1, a2 = (a0, a0) if backend == env.MEM else (mk(), mk())
+    ts = {id(a): tasks.bind(a, tasks.scripted, max_retries=0) for a in {id(x): x for x in (a0, a1, a2)}.values()}
+    inv_id = ts[id(a2)]("a", 7).invocation_id
+    seen: dict = {}
+    base = dict(backend=backend, second_runner=second, late_runner=late)
+
+    def read(tag: str) -> None:
+        r = a2.state_backend.get_invocation(inv_id)
+        st = r.status.name
+        try:
+            out: tuple = ("ok", r.get_final_result())
+        except BaseException as e:  # noqa: BLE001
+            out = ("raise", e)
+        seen[tag] = (st, out)
+
+    execs = [0]
+
+    def script(name: str, x: int) -> Any:
+        execs[0] += 1
+        if execs[0] == 1:
+            # r0's execution: while it is busy, it is presumed dead, recovered, and r1 runs the invocation to the end
+            env.CLOCK.advance(120.0)
+            a1.orchestrator.register_runner_heartbeats(["r1"])
+            context.set_current_app(a1)
+            context.set_runner_context(a1.app_id, runner_ctx("r1"))
+            core_tasks.recover_running_invocations.func()
+            for inv in list(a1.orchestrator.get_invocations_to_run(1, runner_ctx("r1"))):
+                try:
+                    inv.run(runner_ctx("r1"))
+                except Exception:  # noqa: BLE001 - run re-raises what the body raised
+                    pass
+            a1.state_backend.wait_for_all_async_operations()
+            read("after the second runner")
+            context.set_current_app(a0)
+            context.set_runner_context(a0.app_id, runner_ctx("r0"))
+            if late == "raises":
+                raise ValueError("late", name)
+            return -x
+        if second == "raises":
+            raise ValueError("second", name)
+        return x
+    tasks.HOOKS["script"] = script
+    got = list(a0.orchestrator.get_invocations_to_run(1, runner_ctx("r0")))
+    a0.orchestrator.register_runner_heartbeats(["r0"])
+    try:
+        got[0].run(runner_ctx("r0"))
+    except Exception:  # noqa: BLE001
+        pass
+    for a in {id(x): x for x in (a0, a1, a2)}.values():
+        a.state_backend.wait_for_all_async_operations()
+    read("after the late runner")
+    p.count("late_runner_histories")
+    p.count("transitions", 2)
+    p.add("states", (backend, second, late))
+    want_st = "SUCCESS" if second == "returns" else "FAILED"
+    for tag, (st, out) in seen.items():
+        p.count("traces_validated_against_impl")
+        p.add("distinct_outcomes", ("late", second, late, tag, st, out[0]))
+        # the statement: a SUCCESS result is a value returned by *a* completed execution of the body, a FAILED one
+        # raises what *a* body execution raised - after the late write that may be the late runner's own outcome of
+        # the same kind (its result / exception write lands before its status change is refused), never anything else
+        late_done = tag == "after the late runner"
+        values = [7] + ([-7] if late_done and late == "returns" else [])
+        raised = [ValueError("second", "a")] + ([ValueError("late", "a")] if late_done and late == "raises" else [])
+        ok = st == want_st and (
+            (second == "returns" and out[0] == "ok" and any(deep_eq(out[1], v) for v in values))
+            or (second == "raises" and out[0] == "raise" and any(exc_eq(out[1], e) for e in raised)))
+        if not ok:
+            p.violation({"clause": "final-outcome-is-not-an-outcome-of-any-body-execution", "read": tag, **base},
+                        {"status": st, "read_back": repr(out[1])[:200], "body_executions": execs[0]},
+                        {"kind": "late", "backend": backend, "second": second, "late": late})
+            break
+    if execs[0] != 2:
+        p.violation({"clause": "harness:late-runner-scenario-did-not-run-two-bodies", **base}, {"executions": execs[0], "seen": repr(seen)[:300]},
+                    {"kind": "late", "backend": backend, "second": second, "late": late})
+    return p
+
+
 def build(desc: dict) -> Scn:
     return Scn(desc)
 
@@ -346,6 +442,9 @@ def run(ctx: Ctx) -> None:
             ctx.merge(part)
     if not only or "crash" in only:
         for part in par.pmap(_crash_unit, [(s, b) for s in CRASH_SCENARIOS for b in env.BACKENDS]):
+            ctx.merge(part)
+    if not only or "late" in only:
+        for part in par.pmap(_late_unit, [(b, s2, l2) for b in env.BACKENDS for s2 in ("returns", "raises") for l2 in ("returns", "raises")]):
             ctx.merge(part)
     _setup_catalogue()
     res_idx = tasks.CATALOGUE["result"].index({"k": [1, 2]})
@@ -377,6 +476,8 @@ def replay(payload: dict) -> bool:
     r = payload["replay"]
     if r.get("kind") == "schedule":
         return e1.replay_schedule(r)
+    if r.get("kind") == "late":
+        return bool(_late_unit((r["backend"], r["second"], r["late"])).violations)
     if r.get("kind") == "crash":
         p = Partial()
         _crash_run(r["scenario"], r["backend"], tuple(r["crash"]) if r["crash"] else None, p)
